@@ -67,7 +67,7 @@ def aggregate(prop: str, ev: Evidence, rep: Report, results: List[Tuple[str, Any
     return tot
 
 
-def run_parts(prop: str, level: str, parts: List[Tuple[str, Callable[[Any], Any], List[Any]]], meta: Dict[str, Any], assumptions: List[str]) -> int:
+def run_parts(prop: str, level: str, parts: List[Tuple[str, Callable[[Any], Any], List[Any]]], meta: Dict[str, Any], assumptions: List[str], fresh_workers: bool = False) -> int:
     """Run several (label, worker, items) parts through one pool; aggregate into one evidence
     file.  Workers return the result dicts of vlib.checks.pyenc.new_result()."""
     from ..common import pmap
@@ -78,7 +78,7 @@ def run_parts(prop: str, level: str, parts: List[Tuple[str, Callable[[Any], Any]
     for label, fn, items in parts:
         for it in items:
             jobs.append((label, fn, it))
-    results = pmap(_run_job, jobs)
+    results = pmap(_run_job, jobs, fresh=fresh_workers)
     per: Dict[str, Any] = {}
     alltot: Dict[str, Any] = {}
     samples: List[Any] = []
